@@ -114,6 +114,18 @@ def gen_plans(run):
             else:
                 p.append(dict(op="Clear", arg=0, w=run.rng.choice(live)))
         plans.append(p)
+    # look-up, change, look-up (nothing observed in between but Len): whatever a tree may remember from Contains must not survive a change
+    trip = []
+    for n in range(0, 4):
+        for adds in itertools.product((1, 2, 3), repeat=n):
+            for x in (1, 2, 3):
+                for m in [("Add", v) for v in (1, 2, 3)] + [("Remove", v) for v in (1, 2, 3)] + [("Clear", 0)]:
+                    for q in [("Contains", v) for v in (1, 2, 3)] + [("Remove", v) for v in (1, 2, 3)]:
+                        p = [dict(op="Reset", nv=3, ty="int")] + [dict(op="Add", arg=v, w=1, full=False) for v in adds]
+                        p += [dict(op="Contains", arg=x, w=1, full=False), dict(op=m[0], arg=m[1], w=1, full=False),
+                              dict(op=q[0], arg=q[1], w=1, full=False), dict(op="Contains", arg=q[1], w=1, full=True)]
+                        trip.append(p)
+    plans += trip if not run.quick() else run.rng.sample(trip, 700)
     return plans
 
 
